@@ -84,6 +84,9 @@ type script struct {
 	Hot     []shardIn  `json:"hot"`
 	Shuffle int64      `json:"shuffle_seed"`
 	Ctx     *ctxScript `json:"ctx,omitempty"`
+	// further bulks sent through the SAME client object after this one (same topology; own
+	// scripts, shuffle seed, context and payload)
+	More []script `json:"more,omitempty"`
 }
 
 type call struct {
@@ -106,7 +109,8 @@ type result struct {
 	Viol  []string `json:"viol,omitempty"` // directly observed violations: "fingerprint|what"
 	Tries int      `json:"tries"`
 	// number of completed shard visits when the caller's context became done (nil: it never did)
-	CancelAt *int `json:"cancel_at,omitempty"`
+	CancelAt *int     `json:"cancel_at,omitempty"`
+	More     []result `json:"more,omitempty"` // results of script.More, in order
 }
 
 // ---------------------------------------------------------------- generators
@@ -236,6 +240,92 @@ func genBackoff(r *rng.R) script {
 	return sc
 }
 
+// ---- sequences of bulks on one client
+
+func healthyTier(t []shardIn, n int) []shardIn {
+	out := make([]shardIn, len(t))
+	for s := range t {
+		out[s].Open = make([]bool, n)
+		out[s].Reps = make([][]int, len(t[s].Reps))
+		for i := range out[s].Reps {
+			out[s].Reps[i] = make([]int, n)
+		}
+	}
+	return out
+}
+
+// 2..4 bulks through one client: bulks that exhaust their tries after partial success ("down":
+// one replica of every shard of a tier rejects every call while the others accept), healthy
+// ones, random ones and ones whose request context expires
+func genSeq(r *rng.R, tries int) script {
+	n := tries
+	hot := genTier(r, r.Range(1, 3), r.Range(1, 3), n, 0, 0, 0)
+	cold := []shardIn{}
+	if r.Chance(2, 5) {
+		cold = genTier(r, r.Range(1, 2), r.Range(1, 3), n, 0, 0, 0)
+	}
+	mk := func(first bool) script {
+		b := script{Shuffle: int64(r.U64() >> 1), Hot: healthyTier(hot, n), Cold: healthyTier(cold, n)}
+		k := r.Intn(100)
+		if first {
+			k = r.Intn(70) // the first bulk is more often a failing one
+		}
+		switch {
+		case k < 45: // down
+			t := b.Hot
+			if len(b.Cold) > 0 && r.Bool() {
+				t = b.Cold
+			}
+			for s := range t {
+				for i := range t[s].Reps {
+					for c := range t[s].Reps[i] {
+						if r.Chance(1, 5) {
+							t[s].Reps[i][c] = oErr
+						}
+					}
+				}
+				d := r.Intn(len(t[s].Reps))
+				for c := range t[s].Reps[d] {
+					t[s].Reps[d][c] = oErr
+				}
+			}
+		case k < 60: // random
+			for _, t := range [][]shardIn{b.Hot, b.Cold} {
+				for s := range t {
+					for c := range t[s].Open {
+						t[s].Open[c] = r.Chance(15, 100)
+					}
+					t[s].Reps = genReps(r, len(t[s].Reps), n, 40, 5)
+				}
+			}
+		case k < 72: // context expires
+			for _, t := range [][]shardIn{b.Hot, b.Cold} {
+				for s := range t {
+					t[s].Reps = genReps(r, len(t[s].Reps), n, 30, 0)
+				}
+			}
+			b.Ctx = &ctxScript{Mode: "cancel", AfterVisits: r.Intn(4)}
+		default: // healthy
+		}
+		return b
+	}
+	sc := mk(true)
+	sc.Gen = "seq-random"
+	for nb := r.Range(1, 3); nb > 0; nb-- {
+		sc.More = append(sc.More, mk(false))
+	}
+	return sc
+}
+
+// every {ok,err} script as the first bulk, followed by a bulk that finds every replica healthy
+func genSeqExhaustive(name string, coldR, hotR []int, n int, r *rng.R) []script {
+	out := genExhaustive(name, coldR, hotR, n, false, r)
+	for i := range out {
+		out[i].More = []script{{Shuffle: int64(r.U64() >> 1), Hot: healthyTier(out[i].Hot, n), Cold: healthyTier(out[i].Cold, n)}}
+	}
+	return out
+}
+
 // every {ok,err} script of length n x every expiry point of the request context
 func genExhaustiveCtx(name string, coldR, hotR []int, n, maxV int, r *rng.R) []script {
 	var out []script
@@ -314,10 +404,16 @@ func genScripts(seed uint64, tier string, tries int) []script {
 	if n > 1 {
 		out = append(out, genExhaustiveCtx("exh-ctx-cold1x1-hot1x1", []int{1}, []int{1}, 2, 4, r)...)
 	}
+	out = append(out, genSeqExhaustive("seq-exh-hot1x2-then-healthy", nil, []int{2}, n, r)...)
+	if n > 1 {
+		out = append(out, genSeqExhaustive("seq-exh-cold1x1-hot1x1-then-healthy", []int{1}, []int{1}, 2, r)...)
+	}
 	nback := 18
-	nrand := 3400
+	nrand := 3100
+	nseq := 150
 	if tier == "thorough" {
 		nback = 300
+		nseq = 3000
 		nrand = 60000
 		out = append(out, genExhaustive("exh-cold1x2-hot1x1", []int{2}, []int{1}, n, false, r)...)
 		out = append(out, genExhaustive("exh-cold1x1-hot2x1", []int{1}, []int{1, 1}, n, false, r)...)
@@ -327,6 +423,9 @@ func genScripts(seed uint64, tier string, tries int) []script {
 		for i := 0; i < nback; i++ {
 			out = append(out, genBackoff(r))
 		}
+	}
+	for i := 0; i < nseq; i++ {
+		out = append(out, genSeq(r, tries))
 	}
 	for i := 0; i < nrand; i++ {
 		out = append(out, genRandom(r, tries))
@@ -339,9 +438,8 @@ func genScripts(seed uint64, tier string, tries int) []script {
 type runCtx struct {
 	mu      sync.Mutex
 	sc      *script
-	docs    []byte
-	metas   []byte
-	count   int64
+	pays    []payload // payloads of all bulks of the sequence; the one being sent is pays[self]
+	self    int
 	pending []pcall
 	visits  []visit
 	nvisit  map[string]int // "tier/shard" -> visits so far
@@ -353,6 +451,11 @@ type runCtx struct {
 	pendingDead bool // a hanging call of the visit in progress let the context expire
 	total       int  // completed visits
 	cancelAt    *int
+}
+
+type payload struct {
+	docs, metas []byte
+	count       int64
 }
 
 type pcall struct {
@@ -380,9 +483,11 @@ func (f *fake) Bulk(ctx context.Context, in *storeapi.BulkRequest, _ ...grpc.Cal
 	if n < len(sc) {
 		o = sc[n]
 	}
-	pay := 0
-	if in == nil || in.Count != rc.count || !bytes.Equal(in.Docs, rc.docs) || !bytes.Equal(in.Metas, rc.metas) {
-		pay = 1
+	pay := 99 // identifier of the bulk whose exact bytes and count the request carries
+	for j, p := range rc.pays {
+		if in != nil && in.Count == p.count && bytes.Equal(in.Docs, p.docs) && bytes.Equal(in.Metas, p.metas) {
+			pay = j
+		}
 	}
 	if rc.dead {
 		o = oCtx
@@ -541,14 +646,51 @@ func hostsOf(prefix string, t []shardIn, clients map[string]storeapi.StoreApiCli
 }
 
 func runScript(idx int, sc *script) result {
-	rc := &runCtx{sc: sc, nvisit: map[string]int{}, ncall: map[string]int{},
-		docs:  []byte(fmt.Sprintf("docs-%d-\x00\xff", idx)),
-		metas: []byte(fmt.Sprintf("metas-%d", idx)), count: int64(idx%7 + 1)}
-	cur = rc
+	bulks := []*script{sc}
+	for i := range sc.More {
+		bulks = append(bulks, &sc.More[i])
+	}
+	pays := make([]payload, len(bulks))
+	for j := range pays {
+		pays[j] = payload{docs: []byte(fmt.Sprintf("docs-%d-%d-\x00\xff", idx, j)),
+			metas: []byte(fmt.Sprintf("metas-%d-%d", idx, j)), count: int64((idx+3*j)%7 + 1)}
+	}
 	clients := map[string]storeapi.StoreApiClient{}
 	hot := &stores.Stores{Shards: hostsOf("hot", sc.Hot, clients, "hot")}
 	cold := &stores.Stores{Shards: hostsOf("cold", sc.Cold, clients, "cold")}
 	res := result{Idx: idx, Tries: consts.BulkMaxTries}
+	var client *bulk.SeqDBClient
+	func() {
+		defer func() {
+			if p := recover(); p != nil {
+				res.Viol = append(res.Viol, fmt.Sprintf("panic|NewSeqDBClient panicked: %v", p))
+			}
+		}()
+		client = bulk.NewSeqDBClient(hot, cold, breakerCfg, clients)
+	}()
+	if client == nil {
+		return res
+	}
+	for j, b := range bulks {
+		r, stop := runBulk(client, b, j, pays)
+		if j == 0 {
+			r.Idx, r.Tries = res.Idx, res.Tries
+			res = r
+		} else {
+			r.Tries = res.Tries
+			res.More = append(res.More, r)
+		}
+		if stop {
+			break
+		}
+	}
+	return res
+}
+
+// one StoreDocuments call on the (possibly already used) client; stop = the client cannot be used further
+func runBulk(client *bulk.SeqDBClient, sc *script, self int, pays []payload) (res result, stop bool) {
+	rc := &runCtx{sc: sc, nvisit: map[string]int{}, ncall: map[string]int{}, pays: pays, self: self}
+	cur = rc
 	done := make(chan struct{})
 	go func() {
 		defer close(done)
@@ -559,7 +701,6 @@ func runScript(idx int, sc *script) result {
 				rc.mu.Unlock()
 			}
 		}()
-		client := bulk.NewSeqDBClient(hot, cold, breakerCfg, clients)
 		hb, cb := client.VerifBreakers()
 		if len(hb) != len(sc.Hot) || len(cb) != len(sc.Cold) {
 			rc.viol = append(rc.viol, "topology|client built a different number of shards than configured")
@@ -572,8 +713,8 @@ func runScript(idx int, sc *script) result {
 			attach(b, "cold", s, len(sc.Cold[s].Open) > 0 && sc.Cold[s].Open[0])
 		}
 		rand.Seed(sc.Shuffle)
-		docs := append([]byte(nil), rc.docs...)
-		metas := append([]byte(nil), rc.metas...)
+		docs := append([]byte(nil), pays[self].docs...)
+		metas := append([]byte(nil), pays[self].metas...)
 		var ctx context.Context
 		if sc.Ctx != nil && sc.Ctx.Mode == "deadline" {
 			ctx, rc.cancel = context.WithTimeout(context.Background(), 50*time.Millisecond)
@@ -586,7 +727,7 @@ func runScript(idx int, sc *script) result {
 			rc.dead, rc.cancelAt = true, &zero
 			rc.cancel()
 		}
-		err := client.StoreDocuments(ctx, int(rc.count), docs, metas)
+		err := client.StoreDocuments(ctx, int(pays[self].count), docs, metas)
 		res.Ok = err == nil
 	}()
 	select {
@@ -595,6 +736,7 @@ func runScript(idx int, sc *script) result {
 		rc.mu.Lock()
 		rc.viol = append(rc.viol, "hang|StoreDocuments did not return within 30 s")
 		rc.mu.Unlock()
+		stop = true
 	}
 	rc.mu.Lock()
 	defer rc.mu.Unlock()
@@ -604,7 +746,12 @@ func runScript(idx int, sc *script) result {
 	res.Log = append([]visit{}, rc.visits...)
 	res.Viol = rc.viol
 	res.CancelAt = rc.cancelAt
-	return res
+	for _, v := range rc.viol {
+		if strings.HasPrefix(v, "panic|") || strings.HasPrefix(v, "topology|") {
+			stop = true
+		}
+	}
+	return res, stop
 }
 
 // ---------------------------------------------------------------- Coq rendering
@@ -691,19 +838,104 @@ func ordersCoq(os [][]int) string {
 	return "[" + strings.Join(p, "; ") + "]"
 }
 
-func emit(w *casefile.Writer, sc *script, res *result) {
-	for _, v := range res.Viol {
-		fp, what, _ := strings.Cut(v, "|")
-		w.Violate(fp, what, sc)
-	}
+// the Coq fields "cin hin cord hord cancel ok log" of one bulk
+func obsFields(sc *script, res *result) string {
 	cord := ordersOf(res.Log, "cold", len(sc.Cold))
 	hord := ordersOf(res.Log, "hot", len(sc.Hot))
 	cancel := "None"
 	if res.CancelAt != nil {
 		cancel = fmt.Sprintf("(Some %d)", *res.CancelAt)
 	}
-	term := fmt.Sprintf("CBulk %d %s %s %s %s %s %s %s", res.Tries, tierCoq(sc.Cold), tierCoq(sc.Hot),
+	return fmt.Sprintf("%s %s %s %s %s %s %s", tierCoq(sc.Cold), tierCoq(sc.Hot),
 		ordersCoq(cord), ordersCoq(hord), cancel, casefile.Bool(res.Ok), logCoq(res.Log))
+}
+
+// a sequence of bulks on one client: one CSeq case
+func emitSeq(w *casefile.Writer, sc *script, res *result) {
+	bulks := []*script{sc}
+	for i := range sc.More {
+		bulks = append(bulks, &sc.More[i])
+	}
+	ress := []*result{res}
+	for i := range res.More {
+		ress = append(ress, &res.More[i])
+	}
+	var terms, verdicts []string
+	var impl []map[string]any
+	failing := false
+	dirtyThenAck := false // a bulk that exhausted its tries after partial success, followed by an acknowledged one
+	dirty := false
+	for j, r := range ress {
+		for _, v := range r.Viol {
+			fp, what, _ := strings.Cut(v, "|")
+			w.Violate(fp, what, sc)
+		}
+		terms = append(terms, fmt.Sprintf("mkB %d%%N %s", j, obsFields(bulks[j], r)))
+		verdict := "fail"
+		if r.Ok {
+			verdict = "ack"
+		}
+		if r.CancelAt != nil {
+			verdict += "(ctx)"
+		}
+		verdicts = append(verdicts, verdict)
+		okCalls := 0
+		for _, v := range r.Log {
+			if v.Short {
+				failing = true
+			}
+			for _, c := range v.Calls {
+				if accepted(c.Out) {
+					okCalls++
+				} else {
+					failing = true
+				}
+			}
+		}
+		if r.Ok && dirty {
+			dirtyThenAck = true
+		}
+		if !r.Ok && okCalls > 0 {
+			dirty = true
+		}
+		impl = append(impl, map[string]any{"bulk": j, "ok": r.Ok, "log": r.Log, "cancel_at": r.CancelAt})
+	}
+	if len(ress) < len(bulks) {
+		return // the client died; reported as a direct violation above
+	}
+	w.Count("gen:" + sc.Gen)
+	w.Count(fmt.Sprintf("seq:bulks=%d", len(bulks)))
+	term := fmt.Sprintf("CSeq %d [(%s)]", res.Tries, strings.Join(terms, "); ("))
+	nack := 0
+	for _, r := range ress {
+		if r.Ok {
+			nack++
+		}
+	}
+	class := "seq:ack-and-fail-mixed"
+	switch {
+	case dirtyThenAck:
+		class = "seq:ack-after-partially-written-failed-bulk"
+	case nack == len(ress):
+		class = "seq:all-ack"
+	case nack == 0:
+		class = "seq:all-fail"
+	}
+	w.Add(term, class, failing, sc, map[string]any{"tries": res.Tries, "verdicts": strings.Join(verdicts, ">"), "bulks": impl})
+}
+
+func emit(w *casefile.Writer, sc *script, res *result) {
+	if len(sc.More) > 0 {
+		emitSeq(w, sc, res)
+		return
+	}
+	for _, v := range res.Viol {
+		fp, what, _ := strings.Cut(v, "|")
+		w.Violate(fp, what, sc)
+	}
+	cord := ordersOf(res.Log, "cold", len(sc.Cold))
+	hord := ordersOf(res.Log, "hot", len(sc.Hot))
+	term := fmt.Sprintf("CBulk %d %s", res.Tries, obsFields(sc, res))
 	// classification by what was observed
 	failing, skipped, short, slow, timeout := 0, 0, 0, 0, 0
 	for _, v := range res.Log {
